@@ -320,18 +320,35 @@ func pathsReportOrShutdown(b *ssa.BasicBlock) bool {
 }
 
 // chanOwners: in package rel, sends on channels whose desc ends with suffix happen only in senders, receives only in receivers (nil = not checked).
-func (c *Ctx) chanOwners(rel, suffix string, senders, receivers []string) {
-	in := func(list []string, k string) bool {
-		for _, x := range list {
-			if x == k || strings.HasPrefix(k, x+"$") {
-				return true
-			}
+// ownedBy: fn is one of the named owner functions (or a closure of one), or an unexported helper that runs only as
+// part of them: every call site in the package is in an owner and none is a go statement.
+func ownedBy(fn *ssa.Function, owners []string, depth int) bool {
+	k := ssaFuncKey(fn)
+	for _, x := range owners {
+		if x == k || strings.HasPrefix(k, x+"$") {
+			return true
 		}
+	}
+	if depth <= 0 || fn.Parent() != nil || fn.Object() == nil || fn.Object().Exported() {
 		return false
 	}
+	cs := callersInPkg(fn)
+	if len(cs) == 0 {
+		return false
+	}
+	for _, ci := range cs {
+		if _, isGo := ci.(*ssa.Go); isGo || !ownedBy(ci.Parent(), owners, depth-1) {
+			return false
+		}
+	}
+	return true
+}
+
+func (c *Ctx) chanOwners(rel, suffix string, senders, receivers []string) {
 	ns, nr := 0, 0
 	for _, fn := range c.pkgFuncs(rel) {
 		fk := ssaFuncKey(fn)
+		in := func(list []string, _ string) bool { return ownedBy(fn, list, 2) }
 		for _, b := range fn.Blocks {
 			for _, ins := range b.Instrs {
 				switch x := ins.(type) {
